@@ -1,30 +1,40 @@
 ---- MODULE IterMC ----
 (* Exhaustive model: every expression of the universe is built once (Construct) and drained by the documented
-   loop, one Value/Next per step; the I layer (cursor states as coded) must produce the P layer (list semantics). *)
+   loop, one Value/Next per step; the I layer (cursor states as coded) must produce the P layer (list semantics).
+   The universe is given by a set of tagged base expressions and their wrappings (see Iter / PairIter). *)
 EXTENDS Iter
-CONSTANTS Universe      \* the set of expressions explored (bound in the cfg to SeqSmall / SeqWide / SeqDeep / ...)
-VARIABLES expr, st, out, has
-vars == <<expr, st, out, has>>
+CONSTANTS Shape, Width,   \* which expressions are explored: "d1" | "d2" | "d3" over the "small" | "wide" slice set
+          BaseSet, WrapsOf(_, _)   \* bound in the cfg to SeqBaseT / SeqWrapsT (C14) or PairBaseT / PairWrapsT (C15, PairIterMC)
+VARIABLES expr, st, out, has, phase
+vars == <<expr, st, out, has, phase>>
 
-Init == /\ expr \in Universe
-        /\ st = Construct(expr)[1]
-        /\ out = <<>>
-        /\ has = (st # Nil)
-Step == /\ has
+SeqBaseT == SeqBase(Shape, Width)
+SeqWrapsT(tag, e) == SeqWraps(tag, e, Shape, Width)
+
+Init == /\ \E b \in BaseSet : phase = b[1] /\ expr = b[2]
+        /\ st = Nil /\ out = <<>> /\ has = FALSE
+Wrap == /\ phase \notin {"seq", "pair"}
+        /\ \E w \in WrapsOf(phase, expr) : phase' = w[1] /\ expr' = w[2]
+        /\ st' = Construct(expr')[1]
+        /\ out' = <<>>
+        /\ has' = (st' # Nil)
+Step == /\ phase \in {"seq", "pair"} /\ has
         /\ LET n == Next(st) IN
            /\ out' = Append(out, Value(st)[1])
            /\ st' = n[2]
            /\ has' = n[1]
-        /\ UNCHANGED expr
-Spec == Init /\ [][Step]_vars
+        /\ UNCHANGED <<expr, phase>>
+Next1 == Wrap \/ Step
+Spec == Init /\ [][Next1]_vars
 
-ListSemantics == ~has => out = Sem(expr)
-PrefixAlways == Len(out) <= Len(Sem(expr)) /\ SubSeq(Sem(expr), 1, Len(out)) = out
-NilIffEmpty == Len(out) = 0 => (has <=> Sem(expr) # <<>>)      \* an empty result is the nil iterator
+Running == phase \in {"seq", "pair"}
+ListSemantics == Running /\ ~has => out = Sem(expr)
+PrefixAlways == Running => Len(out) <= Len(Sem(expr)) /\ SubSeq(Sem(expr), 1, Len(out)) = out
+NilIffEmpty == Running /\ Len(out) = 0 => (has <=> Sem(expr) # <<>>)      \* an empty result is the nil iterator
 SourcesUntouched == SliceViewsOK(st)
-\* evaluated in the initial state of every expression: ForEach as coded = the list cut after the failing callback,
-\* and the one-value form of the loop (used by the generator and the trace spec) is the same drain
-ForEachStops == Len(out) = 0 =>
+\* evaluated once per expression (in its final state): ForEach as coded = the list cut after the failing callback;
+\* the one-value form of the loop (used by the generator and the trace spec) is the same drain
+ForEachStops == Running /\ ~has =>
                   /\ \A k \in 0..Len(Sem(expr)) : ForEachI(expr, k) = ForEachL(Sem(expr), k)
                   /\ Values(Run(expr).steps) = Sem(expr)
 ====
